@@ -35,3 +35,17 @@ pub(crate) fn sync_config_override() -> Option<(usize, usize)> {
         split => Some((split, MAX_SET_SIZE.load(Ordering::SeqCst))),
     }
 }
+
+/// A [`Replica`](crate::Replica) view over a store and a caller-owned
+/// [`ReplicaInfo`](crate::ReplicaInfo), exactly as the store actor builds it for every request
+/// (`OpenReplicas::replica` in `actor.rs`), so that subscribers registered on the info persist
+/// across operations of a single-threaded harness.
+pub fn replica<'a, 'b>(
+    store: &'b mut crate::store::Store,
+    info: &'a mut crate::ReplicaInfo,
+) -> crate::Replica<'b, &'a mut crate::ReplicaInfo> {
+    crate::Replica::new(
+        crate::store::fs::StoreInstance::new(info.capability.id(), store),
+        info,
+    )
+}
